@@ -26,7 +26,10 @@ EXTRA = {"C01-no-truncate": ["C17"], "C01-global-ofile-first-only": ["C15"], "C1
          "C04-submethod-inherits-skipcopy": ["C12"], "C02-int-widening-ignores-sign": ["C03"], "C03-ci-field-hides-method": ["C05"],
          "C03-enum-float-undetected": ["C08"], "C10-update-target-after-source-in-arg-switch": ["C14"], "C01-output-package-name-sticky": ["C15"],
          "C07-explicit-callers-not-regenerated": ["C01"], "C06-error-retrofit-skips-callers": ["C01"], "C17-update-pointer-source-error-dropped": ["C03"],
-         "C06-update-assign-skips-declared-method": ["C11"], "C02-map-path-nillable-unguarded": ["C05"], "C17-output-dir-single-level": ["C15"], "C02-index-names-reused-after-z": ["C01"], "C04-array-same-type-assigned": ["C03"], "C14-funcformat-custom-func-keeps-converter-role": ["C01"]}
+         "C06-update-assign-skips-declared-method": ["C11"], "C02-map-path-nillable-unguarded": ["C05"], "C17-output-dir-single-level": ["C15"], "C02-index-names-reused-after-z": ["C01"], "C04-array-same-type-assigned": ["C03"], "C14-funcformat-custom-func-keeps-converter-role": ["C01"],
+         "C03-field-settings-leak-nested": ["C05"], "C05-custom-pointer-source-replaces-mapped-field": ["C06"],
+         "C06-local-context-cache-keyed-by-package-name": ["C14", "C19"], "C06-map-func-ignores-method-context-regex": ["C12"],
+         "C10-sourceless-func-zero-check-nil-type": ["C13"], "C03-enum-stale-enabled": ["C12"], "C10-zero-literal-unsafe-pointer-as-number": ["C13"]}
 
 
 def sh(cmd, **kw):
@@ -40,6 +43,8 @@ def one(name):
     d = os.path.join(VERIF, "seeded", name)
     meta = json.load(open(os.path.join(d, "meta.json")))
     prop = meta["breaks_property"]
+    if meta.get("superseded"):
+        return (name, prop, "superseded", "")
     wt = tempfile.mkdtemp(prefix="sweep-wt-")
     os.rmdir(wt)
     if sh("git -C /repo worktree add -q --detach %s HEAD" % wt).returncode != 0:
@@ -80,6 +85,8 @@ def write_status():
         m = json.load(open(f))
         got = m.get("detected_now_by")
         caught = "not run" if got is None else (", ".join("./check " + c for c in got) or "MISSED")
+        if m.get("superseded"):
+            caught += " (superseded: patch no longer applies)"
         rows.append((n, m["breaks_property"], caught, m.get("detection_run", ""), m.get("needs_to_manifest", "").replace("|", "\\|")))
     with open(os.path.join(VERIF, "seeded", "STATUS.md"), "w") as fh:
         fh.write("# Seeded changes and the quick checks that catch them (written by lib/sweep_seeded.py)\n\n"
